@@ -52,6 +52,11 @@ CHECKS = {
    text="The record/rewind buffer (L4Segs: Read / prefetch / freeze / Wrap over stream segments) is part of the router model; TLC checks R7 (handlers together read the stream exactly once, in order, from position 0) and R8 (a tee branch reads what the handlers after the tee read) on every behaviour of a real-size configuration (unit 4 bytes: chunk 2048, limit 8192, PROXY v2 header 28 bytes) whose handler palette is the SHIPPED wrapping handlers - proxy_protocol, throttle, tee, echo, subroute - plus consuming/wrapping test handlers, and of the toy-constant configurations; every behaviour is replayed through the real handlers (position-coded stream, scripted segmentation) and must equal the prediction or is judged by TLC; random larger instances are validated the same way.",
    note="TLS termination is exercised in the listener runs (C13) and the TLS chain runs, not in the exhaustive replay; one tee per configuration; matchers are scripted threshold/position matchers",
    technique="TLA+ model of the record/rewind buffer and router with the shipped wrapping handlers, checked with TLC; behaviour replay + trace validation"),
+
+ "C12": dict(level="model_checking", design="5 C12, 4.7",
+   text="The reference RecvExpect/SendExpect of L4ProxyProto (which bytes are stripped, which addresses later matchers, handlers and placeholders must see; which header each upstream must receive first) is evaluated by TLC over every case of a bounded grammar (version x family incl. v1 UNKNOWN and v2 LOCAL x boundary addresses x allow-list relation x segmentation x bytes prefetched by an earlier matcher x payload; send: version x direct/behind a receiving handler x peers x payload). Each case is played against the real proxy_protocol handler inside a real route list (followed by a real remote_ip matcher and a recording handler) or the real proxy handler over loopback TCP, with headers produced and parsed by the harness's own codec, and TLC judges the observations (clauses Q1-Q7).",
+   note="v2 TLVs are not generated (the library rejects them); receive cases use a scripted connection",
+   technique="TLA+ reference of PROXY protocol receive/send semantics; exhaustive TLC case enumeration replayed on the real handlers; trace validation"),
 }
 NA = {
 }
